@@ -138,10 +138,13 @@ static int body(fibre_t *f)
 	}
 	PT_END();
 }
+static int pristine = 1;     /* nothing has touched the scheduler since the program started: its state is what the C initialisers say */
 static void reset(int n, uint32_t b, uint32_t s)
 {
 	nf = n; base = b; scale = s ? s : 1;
-	fibre_verif_reset();
+	if (!pristine)               /* the first execution of every driver run uses the statically initialised kernel as it is */
+		fibre_verif_reset();
+	pristine = 0;
 	for (int i = 1; i <= nf; i++) {
 		fibre_init(&fib[i].f, body);
 		fib[i].id = i;
@@ -224,7 +227,7 @@ int main(void)
 	drv_cmd_t c;
 	long pass_t = -1;
 	drv_install_handlers();
-	reset(2, 0, 1);
+	nf = 2; base = 0; scale = 1;
 	while (drv_read(&c, stdin)) {
 		if (drv_is(&c, "Reset")) reset(drv_arg(&c, 0), (uint32_t)drv_arg(&c, 1), (uint32_t)drv_arg(&c, 2));
 		else if (drv_is(&c, "PassBegin")) { pass_t = drv_arg(&c, 0); nscript = 0; }
